@@ -1,6 +1,6 @@
 (** Evaluator glue for C16: runs the ClientID model on what the harness ran
     the real code on. *)
-From AGH Require Import Base.Run Base.Bytes Base.Dom Base.PathClean Model.ClientID.
+From AGH Require Import Base.Run Base.Bytes Base.Dom Base.PathClean Model.ClientID Model.CertNames.
 Local Open Scope N_scope.
 
 (** Error classes as the harness can tell them apart without reading message
@@ -43,7 +43,19 @@ Inductive case :=
   | CHost (hp : bytes) (obs : option bytes)
   (* clientServerNameFromHTTP: TLS state (None = r.TLS == nil), Host header;
      observed name (None = error) and the fromHost flag *)
-  | CHttpName (tls : option bytes) (hh : bytes) (obs : option bytes) (obs_from_host : bool).
+  | CHttpName (tls : option bytes) (hh : bytes) (obs : option bytes) (obs_from_host : bool)
+  (* matchesDomainWildcard(host, pat) *)
+  | CWild (host pat : bytes) (obs : bool)
+  (* anyNameMatches(dnsNames, sni): the names as passed (sorted or not); v6 =
+     what netutil.IsValidIPString answered (read by the model only when the
+     scan of the first five bytes meets a colon first) *)
+  | CAny (names : list bytes) (sni : bytes) (v6 : bool) (obs : bool)
+  (* Server.prepareTLS + tls.Config.GetCertificate: strict flag, SAN DNS names
+     of the certificate in certificate order, subject CommonName, handshake
+     server name, v6 as above; observed: certificate handed out *)
+  | CHello (strict : bool) (dns : list bytes) (cn : bytes) (sni : bytes) (v6 : bool) (obs : bool)
+  (* the gate: netutil.IsValidHostname(s) || netutil.IsValidIPString(s) *)
+  | CGate (s : bytes) (v6 : bool) (obs : bool).
 
 Definition eqb_res (r : N * bytes) (c : N) (id : bytes) : bool :=
   (fst r =? c) && eqb_bytes (snd r) id.
@@ -64,6 +76,11 @@ Definition case_ok (c : case) : bool :=
       let r := mk_req (nil, tls, hh) in
       eqb_option eqb_bytes (match server_name_from_http r with inr n => Some n | inl _ => None end) obs
       && Bool.eqb (name_from_host r) fh
+  | CWild host pat obs => Bool.eqb (matches_domain_wildcard host pat) obs
+  | CAny names sni v6 obs => Bool.eqb (any_name_matches names sni v6) obs
+  | CHello strict dns cn sni v6 obs =>
+      Bool.eqb (handshake_accepts strict {| c_dns_names := dns; c_common_name := cn |} sni v6) obs
+  | CGate s v6 obs => Bool.eqb (sni_wellformed s v6) obs
   end.
 
 Definition mismatches := Base.Run.mismatches case_ok.
@@ -82,4 +99,10 @@ Definition explain (c : case) : N * bytes :=
       | inr n => ((if name_from_host r then 10 else 0), n)
       | inl e => (err_code e, nil)
       end
+  | CWild host pat _ => ((if matches_domain_wildcard host pat then 1 else 0), nil)
+  | CAny names sni v6 _ => ((if any_name_matches names sni v6 then 1 else 0), nil)
+  | CHello strict dns cn sni v6 _ =>
+      ((if handshake_accepts strict {| c_dns_names := dns; c_common_name := cn |} sni v6 then 1 else 0),
+       concat (map (fun n => n ++ [32]) (collect_names {| c_dns_names := dns; c_common_name := cn |})))
+  | CGate s v6 _ => ((if sni_wellformed s v6 then 1 else 0), nil)
   end.
